@@ -220,6 +220,33 @@ func checkRestructHeights(c *core.Ctx) {
 				}
 			}
 		}
+		// the same walk written as a pop loop: hash = s[len(s)−1] with s = φ[entry: stack, loop: s[:len(s)−1]]
+		if ld, isLd := args[2].(*ssa.UnOp); isLd && ld.Op == token.MUL && !down {
+			if ia, isIA := ld.X.(*ssa.IndexAddr); isIA {
+				if sphi, isPhi := ia.X.(*ssa.Phi); isPhi && len(sphi.Edges) == 2 {
+					isTop := func(v ssa.Value) bool {
+						t := minusOne(v)
+						if t == nil {
+							return false
+						}
+						l, _ := ir.CallOf(t)
+						if l == nil {
+							return false
+						}
+						bi, isB := l.Common().Value.(*ssa.Builtin)
+						return isB && bi.Name() == "len" && l.Common().Args[0] == ssa.Value(sphi)
+					}
+					if isTop(ia.Index) {
+						for i, e := range sphi.Edges {
+							if sl, isSl := e.(*ssa.Slice); isSl && sl.X == ssa.Value(sphi) && sl.Low == nil && sl.High != nil && isTop(sl.High) {
+								down = true
+								stack = sphi.Edges[1-i]
+							}
+						}
+					}
+				}
+			}
+		}
 		if !down {
 			c.Broken(rule, fn, "the branch stack is popped from its last element downward", pos, "hash argument is not stack[φ] with φ running from len−1 down: shape not recognised")
 			continue
